@@ -5,7 +5,11 @@ from diff import Case
 from gen import *
 
 THEOREMS = ["C07_fragment_exact", "C07_tail_is_fragment", "C07_datagram_whole", "C07_reassemble_cover",
-            "C07_reassemble_any_order"]
+            "C07_reassemble_any_order",
+            # composition, MF exactness, library level and histories (Props/C07b.v)
+            "C07_requests_total", "C07_request_emitted", "C07_datagram_is_tail", "C07_zero_length_request", "C07_overlong_request", "C07_raw_honoured", "C07_mf_clear_iff", "C07_mf_cases", "C07_cover_has_last", "C07_compose_reassembles", "C07_compose_permutation", "C07_compose_same_key", "C07_frag_created", "C07_frag_methods", "C07_frag_methods_foreign", "C07_frag_functions_foreign", "C07_frag_history", "C07_frag_history_wire", "C07_history_reassembles"]
+PROPS = ["C07", "C07b"]
+VO = ["theories/Props/C07.vo", "theories/Props/C07b.vo"]
 RULE = ("exhaustive small scope: payload lengths 0..40 (quick: 0..24) x all (offset, length) requests with offset <= 6, "
         "length <= 6 (8-byte units) x raw/framed, plus tail and datagram; random covers (shuffled, duplicated, "
         "overlapping, over-long requests) of random payloads up to 1500 bytes and of the 65515-byte maximum, with context "
